@@ -371,6 +371,18 @@ fn handle(req: &Value) -> Value {
                 },
             }
         }
+        "repeat" => {
+            // the same search n times on one thread: the last outcome, and the outcome of an unrelated fresh probe afterwards, must be what they were at the start
+            let e = req["expr"].as_str().unwrap(); let n = req["n"].as_u64().unwrap();
+            let s = |r: &Result<Rcvar, JmespathError>| match r { Ok(v) => format!("{:?}", v), Err(e) => format!("ERR {:?}", e.reason) };
+            let probe = |txt: &str| match jmespath::compile(txt) { Ok(x) => s(&x.search(to_var(&req["doc"]))), Err(e) => format!("COMPILE {:?}", e.reason) };
+            let x = match jmespath::compile(e) { Ok(x) => x, Err(e) => return err_json("compile-err", &e) };
+            let first = s(&x.search(to_var(&req["doc"]))); let p0 = probe("[@, `1`]");
+            let mut last = first.clone();
+            for _ in 0..n { last = s(&x.search(to_var(&req["doc"]))); }
+            let p1 = probe("[@, `1`]"); let fresh = probe(e);
+            json!({"kind": "ok", "stable": first == last && p0 == p1 && fresh == first, "first": first, "last": last, "fresh_after": fresh, "probe_before": p0, "probe_after": p1})
+        }
         "reuse" => {
             // one compiled expression searched on docs[0] then docs[1]  vs  a fresh expression on docs[1]
             let e = req["expr"].as_str().unwrap();
